@@ -94,7 +94,18 @@ pub enum ManifestFault {
 pub enum Fault {
     PreExisting { path: String, len: usize },
     Unavailable { step: usize, mirror: usize, task: TaskRef },
-    Extra { step: usize, mirror: usize, task: TaskRef, path: String, kind: ExtraKind, len: usize, front: bool },
+    Extra {
+        step: usize,
+        mirror: usize,
+        task: TaskRef,
+        path: String,
+        kind: ExtraKind,
+        len: usize,
+        front: bool,
+        /// the entry's own header carries this (expected) name; `path` comes from a long-name / PAX record
+        #[serde(default)]
+        disguise: Option<(String, archive::Via)>,
+    },
     DropEntry { step: usize, mirror: usize, task: TaskRef, index: usize },
     WrongCompression { step: usize, mirror: usize, task: TaskRef },
     Truncate { step: usize, mirror: usize, task: TaskRef, permille: u32 },
@@ -108,6 +119,8 @@ impl Fault {
         match self {
             Fault::PreExisting { .. } => "preexisting_user_file",
             Fault::Unavailable { .. } => "location_unavailable",
+            Fault::Extra { disguise: Some((_, archive::Via::GnuLongName)), .. } => "extra_entry_behind_gnu_long_name_record",
+            Fault::Extra { disguise: Some((_, archive::Via::Pax)), .. } => "extra_entry_behind_pax_path_record",
             Fault::Extra { task: TaskRef::Imm(_), .. } => "extra_entry_immutable_archive",
             Fault::Extra { task: TaskRef::Anc, .. } => "extra_entry_ancillary_archive",
             Fault::DropEntry { .. } => "entry_dropped",
@@ -309,15 +322,24 @@ pub fn generate(rng: &mut Rng) -> (Config, Vec<Fault>) {
                     1 => ExtraKind::Dir,
                     _ => ExtraKind::File,
                 };
-                faults.push(Fault::Extra {
-                    step: s,
-                    mirror,
-                    task,
-                    path,
-                    kind,
-                    len: rng.range(0, 50) as usize,
-                    front: rng.chance(0.5),
-                });
+                let len = rng.range(0, 50) as usize;
+                let front = rng.chance(0.5);
+                // sometimes the entry hides behind an expected name: its own header says
+                // `immutable/<n>.<ext>` of this very archive, the effective path comes from a
+                // GNU long-name or PAX record (own sub-stream: older scenarios stay as they were)
+                let mut r2 = Rng::for_run(cfg.content_seed, "c19-disguise", faults.len() as u64 * 131 + s as u64);
+                let disguise = match (&kind, task) {
+                    (ExtraKind::File, TaskRef::Imm(n)) if r2.chance(0.2) => Some((
+                        format!("immutable/{:05}.{}", n, r2.pick(&["chunk", "primary", "secondary"])),
+                        if r2.chance(0.5) { archive::Via::GnuLongName } else { archive::Via::Pax },
+                    )),
+                    (ExtraKind::File, TaskRef::Anc) if r2.chance(0.1) => Some((
+                        honest_ancillary_paths(&cfg)[r2.index(3)].clone(),
+                        if r2.chance(0.5) { archive::Via::GnuLongName } else { archive::Via::Pax },
+                    )),
+                    _ => None,
+                };
+                faults.push(Fault::Extra { step: s, mirror, task, path, kind, len, front, disguise });
             }
             4 => {
                 let task = gen_task(rng, &cfg, step, false);
@@ -415,7 +437,7 @@ fn path_anc(root: &Path, step: usize, mirror: usize, comp: Comp) -> PathBuf {
     root.join(format!("s{step}/m{mirror}/ancillary.{}", comp.ext()))
 }
 
-fn extra_entry(cfg: &Config, path: &str, kind: &ExtraKind, len: usize, task: TaskRef) -> Entry {
+fn extra_entry(cfg: &Config, path: &str, kind: &ExtraKind, len: usize, task: TaskRef, disguise: &Option<(String, archive::Via)>) -> Entry {
     let kind = match kind {
         // content depends on the archive it is planted in, so the oracle can tell which archive a
         // surviving file came from
@@ -423,7 +445,7 @@ fn extra_entry(cfg: &Config, path: &str, kind: &ExtraKind, len: usize, task: Tas
         ExtraKind::Symlink(t) => EntryKind::Symlink(t.clone()),
         ExtraKind::Dir => EntryKind::Dir,
     };
-    Entry { path: path.to_string(), kind }
+    Entry { path: path.to_string(), kind, disguise: disguise.clone() }
 }
 
 fn apply_byte_faults(mut bytes: Vec<u8>, faults: &[&Fault]) -> Vec<u8> {
@@ -466,8 +488,8 @@ pub fn build_step(cfg: &Config, faults: &[Fault], step: usize, root: &Path) -> B
             let mut comp = mc.comp_imm;
             for f in &fs {
                 match f {
-                    Fault::Extra { path, kind, len, front, .. } => {
-                        let e = extra_entry(cfg, path, kind, *len, TaskRef::Imm(n));
+                    Fault::Extra { path, kind, len, front, disguise, .. } => {
+                        let e = extra_entry(cfg, path, kind, *len, TaskRef::Imm(n), disguise);
                         if *front { entries.insert(0, e) } else { entries.push(e) }
                     }
                     Fault::DropEntry { index, .. } => {
@@ -522,8 +544,8 @@ pub fn build_step(cfg: &Config, faults: &[Fault], step: usize, root: &Path) -> B
         };
         for f in &fs {
             match f {
-                Fault::Extra { path, kind, len, front, .. } => {
-                    let e = extra_entry(cfg, path, kind, *len, TaskRef::Anc);
+                Fault::Extra { path, kind, len, front, disguise, .. } => {
+                    let e = extra_entry(cfg, path, kind, *len, TaskRef::Anc, disguise);
                     if *front { entries.insert(0, e) } else { entries.push(e) }
                 }
                 Fault::DropEntry { index, .. } => {
